@@ -233,6 +233,47 @@ INFO = {
     'C19-init-fallback-mode-not-percolated': ('a pipeline put on the background loop by a loop-requiring node, an asynchronous node added later', 'clause "the fallback mode percolates to the pipeline"'),
     'C20-scatter-releases-before-emit': ('an element with a ref through source.scatter() with no other holder', '-'),
     'C20-gather-derives-from-daskstream': ('map / starmap / accumulate attached behind gather()', 'class-hierarchy obligations for scatter / gather / the Dask node variants'),
+    # round 7 ------------------------------------------------------------------------------------------------------------
+    'C01-slice-init-drops-check-end': ('slice(None or 0, 0, step): the window is over before the first element', 'slice.__init__ under contract (8 None / int variants): fields, attachment, detached at construction when end == 0'),
+    'C01-slice-stride-anchored-at-zero-via-index': ('step > 1 and start not a multiple of step', '-'),
+    'C02-rate-limit-claims-slot-after-waiting': ('an element parked in rate_limit and a second one arriving after its slot time but before its timer ran', '-'),
+    'C02-partition-timeout-zero-treated-as-none': ('partition(n, timeout=0) and a trailing incomplete batch', 'a constructor contract serves every property the step contracts of its class serve (the clause existed, tagged C01 / C08 only)'),
+    'C03-from-periodic-awaits-only-awaitable-result': ('a consumer behind from_periodic that returns an awaitable and is slower than the poll interval', "module-level names of sources.py; the first-segment clause no longer depends on the ordinal of the suspension ('normal' instead of 'yield:1': was checker error)"),
+    'C03-sink-narrow-awaitable-test-dunder-await': ('a consumer whose return value is awaitable through __await__ only (dask Future, agen.asend)', 'isinstance(x, <future class>) modelled like gen.is_future (was checker error)'),
+    'C04-partition-flush-releases-live-metadata-list': ('a same-key arrival while a flush is suspended on a slow consumer', '-'),
+    'C04-rate-limit-releases-before-awaiting-emission': ('an asynchronous consumer below rate_limit that takes no hold of its own', '-'),
+    'C05-zip-dedups-metadata-before-release': ('the same ref-carrying element reaching one zip through two inputs', 'the identity-dedupe dict comprehension is an uninterpreted function of the flattened list (was checker error)'),
+    'C05-buffer-retains-after-put-coroutine': ('more than n ref-carrying elements outstanding at buffer(n), slow consumer', '-'),
+    'C06-sum-initial-times-zero': ('a non-finite total in the first batch (division by zero upstream)', 'inf in the tables of the additive running reductions of the bounded enumeration (floating point is outside the real-number model of the proofs)'),
+    'C06-getattr-cached-column-accessor': ('x = sdf.x kept; sdf["x"] = x * 2; sdf.x again', 'wiring contracts for _DataFrameMixin.__getattr__ / __getitem__; imported names, the instance dict and item stores are opaque under wiring contracts'),
+    'C07-sum-on-old-snaps-residue-to-zero': ('a windowed sum whose true value is below 1e-8', 'a table of magnitudes below numpy.isclose\'s absolute tolerance in the bounded enumeration (symbolic: checker error on np.isclose)'),
+    'C07-full-on-old-drops-by-label': ('window(n).full() with a label shared by a decayed and a retained row', '-'),
+    'C08-partition-timer-armed-by-callbacks-membership': ('a timer flush of a key followed by a partial batch of the same key', '-'),
+    'C08-partition-flush-pops-callback-after-emit': ('a same-key arrival while a flush is blocked, then that batch reaching n before its timeout', '-'),
+    'C09-get-message-batch-breaks-on-error-event': ('poll() returning an error event in the middle of a batch', 'clause "without a timeout the whole range low..high is read" (the old postcondition allowed any prefix)'),
+    'C09-emit-releases-in-finally-c09': ('a consumer that raises on a Kafka batch, then a restart', '-'),
+    'C10-zip-metadata-flatten-iconcat-in-place': ('fan-out below the first zipped stream', 'functools.reduce / itertools.chain flatten idioms modelled; call-site obligation "a list received from elsewhere is not extended in place" for iconcat without an initial list'),
+    'C10-timed-window-unique-metadata-swapped-unconditionally': ('keep="first", a repeated key within one interval, differing metadata', 'dict.setdefault supported (was checker error)'),
+    'C11-mean-counts-move-by-len': ('expanding / windowed mean over data with a NaN', '-'),
+    'C11-ewm-getitem-passes-resolved-com-loses-start': ('ewm(..., start=state) followed by a column selection', 'wiring contract for EWM.__getitem__'),
+    'C12-var-origin-kept-on-aggregation-object': ('a var / std window resumed with start= on a stream declared with an empty example, drifting data', '-'),
+    'C12-accumulate-rolls-back-state-on-downstream-failure': ('with_state=True, a state-recording consumer before a consumer that raises on batch k', 'clause "a state that was emitted stays the stored state when a consumer fails"'),
+    'C13-rate-limit-native-coroutine': ('an emitter that does not await the result of update (collect.flush, the from_tcp handler)', 'clause "the slot is reserved when update is called" (a native coroutine does nothing until awaited); asyncio.gather in the segment model'),
+    'C13-delay-stop-ends-forwarder': ('stop() on or below a delay node while elements are queued or before further ones arrive', 'generic clause "the forwarding coroutine never exits" for every cb coroutine'),
+    'C14-latest-bare-slot-truthiness': ('a falsy newest element', 'NOT decided: the slot representation changed (list -> bare element), the contract of latest does not apply (checker error, exit 3)'),
+    'C14-latest-forwarder-exits-when-detached': ('detach while a delivery is in flight, re-attach, new elements', 'generic clause "the forwarding coroutine never exits"'),
+    'C15-zip-waiting-counter-decrement-on-remove': ('disconnect a zip input that has a buffered element, then another input delivers', 'NOT decided: a new counter field replaces the all-buffers-non-empty test, the contract pre-state does not describe it (checker error, exit 3)'),
+    'C15-sink-unregisters-on-last-upstream-removed': ('a sink disconnected, connected elsewhere, then unreferenced', 'syntactic frame obligation: the sink registry is touched only by Sink.__init__ and Sink.destroy'),
+    'C16-emit-filters-done-futures': ('a consumer that returns an already failed future', 'filter comprehensions over symbolic sequences (homomorphism with uninterpreted pure predicates of the element)'),
+    'C16-diff-iloc-reuses-state-deque': ('a count window whose aggregation raises on a later batch', '-'),
+    'C17-textfile-emit-loop-stops-on-stopped-flag': ('one read with several records and stop() while they are emitted, then start()', '-'),
+    'C17-filenames-diff-only-when-count-changes': ('a delivered file removed and a new one created (equal counts)', 'the directory listing has an unknown size unrelated to other sets (was checker error: len of a set without cardinality)'),
+    'C18-from-tcp-handler-loses-stopped-check': ('a connection kept open across stop() that keeps sending', '-'),
+    'C18-periodic-start-flips-flag-in-place': ('stop() then start() within one interval', '-'),
+    'C19-source-restart-rebinds-loop': ('a second start() of a source bound to an explicit loop', 'clause "starting never moves the source to another loop" (tagged C19; Source.start was checked under C18 only); get_io_loop summary'),
+    'C19-map-async-task-on-current-loop': ('map_async.start() from a thread that runs its own asyncio loop', '-'),
+    'C20-sliding-window-partial-drops-emit-result': ('scatter ... sliding_window(n >= 2, return_partial=True) ... gather, the first n-1 elements', '-'),
+    'C20-dask-starmap-key-omits-kwargs': ('two starmap branches with the same function and different kwargs below one Dask stream', 'syntactic obligation: a caller-chosen task key depends on everything the task is given'),
 }
 
 
@@ -265,6 +306,18 @@ def main():
     print('|---|---|---|---|---|---|---|')
     for r in rows:
         print(r)
+    have = set(os.path.basename(d) for d in glob.glob(os.path.join(HERE, 'seeded', 'C*-*')))
+    gone = [(k, v) for k, v in INFO.items() if k not in have]
+    if gone:
+        print()
+        print('Changes of rounds 1-6 whose files are no longer in `seeded/` (they were never added to the repository of `/verif` and '
+              'were lost when the sandbox was restored between sessions; what remains is this record of what each needed and what it '
+              'led to in the machinery -- they are not re-checked any more and nothing about them is claimed as evidence):')
+        print()
+        print('| seeded change (files lost) | what it needed to manifest | machinery strengthened to catch it |')
+        print('|---|---|---|')
+        for k, (needs, strengthened) in sorted(gone):
+            print('| `%s` | %s | %s |' % (k, needs, strengthened))
 
 
 if __name__ == '__main__':
